@@ -21,8 +21,11 @@ open Heimdall Heimdall.Conc
 theorem c07_protocol_add : canon (lookupMethod Gen.repoProtocol "AddRuleSet") = writerProtocol := by decide
 theorem c07_protocol_update : canon (lookupMethod Gen.repoProtocol "UpdateRuleSet") = writerProtocol := by decide
 theorem c07_protocol_delete : canon (lookupMethod Gen.repoProtocol "DeleteRuleSet") = writerProtocol := by decide
-theorem c07_protocol_find : canon (lookupMethod Gen.repoProtocol "FindRule") = readerProtocol := by decide
+theorem c07_protocol_find : canonReader (lookupMethod Gen.repoProtocol "FindRule") = readerProtocol := by decide
 theorem c07_protocol_mutexes : Gen.repoProtocolMutexes = ["$K", "$T"] := by decide
+/-- no other exported method of the repository, no helper referenced from elsewhere and no function of the package
+touches the shared state: the four methods above are the only way to it -/
+theorem c07_protocol_no_foreign_access : Gen.repoProtocolForeign = [] := by decide
 
 /-- the transitions of the machine, read as source-level events, are that protocol -/
 theorem c07_edges_are_protocol : edgesAsProtocol = writerProtocol ∧ readerEdgesAsProtocol = readerProtocol := by
